@@ -174,12 +174,38 @@ pub fn spec(id: &str) -> Option<Spec> {
             real: vec!["virtio_drivers::device::gpu::{VirtIOGpu, Edid}", "virtio_drivers::device::sound::VirtIOSound", "virtio_drivers::device::rng::VirtIORng", "virtio_drivers::device::rtc::VirtIORtc", "virtio_drivers::device::virtio_9p::VirtIO9p", "VirtQueue / OwningQueue"],
             stubbed: vec!["devices: reference GPU, sound, entropy, RTC, 9P (sim/src/devices/{gpu,sound,simple}.rs)", "platform: SimHal"],
         },
+        "C17" => Spec {
+            id: "C17",
+            level: "exploration",
+            rule: "seeded interleavings of local sends/receives/credit updates and peer packets on VsockConnectionManager (4 peers x 4 local ports, per-connection capacity 1..64 KiB) in lock step with a reference model of both credit windows; honest-peer batches (peers never exceed the advertised credit), a fault batch (peers exceed credit, shrink their window, send malformed packets), and two long-stream batches that push more than 4 GiB through one connection in each direction so the 32-bit counters wrap; non-trivial = at least two connections exist and more than twice the capacity was read (history) / a counter wrapped (wrap batches)",
+            batches: vec![
+                b("honest", scen::c17::honest, 6000, 150_000),
+                b("garbage", scen::c17::garbage, 3000, 80_000),
+                b("dishonest", scen::c17::dishonest, 3000, 80_000),
+                heavy("wrap_tx", scen::c17::wrap_tx, 4, 32),
+                heavy("wrap_rx", scen::c17::wrap_rx, 4, 32),
+            ],
+            extras: vec![],
+            assumptions: vec!["capacity 0 is excluded as meaningless", "wrap batches verify payloads by sampling 64 positions per packet (bulk mode)"],
+            real: vec!["virtio_drivers::device::socket::{VsockConnectionManager, VirtIOSocket, ConnectionInfo}", "OwningQueue, VirtQueue"],
+            stubbed: vec!["device + peers: reference vsock device (sim/src/devices/vsock.rs) and peer/credit model (sim/src/scen/c17.rs)", "platform: SimHal"],
+        },
+        "C18" => Spec {
+            id: "C18",
+            level: "exploration",
+            rule: "same histories as C17 (listen, unlisten, connect, send, recv, shutdown, force_close, update_credit, poll; peer request, response, reset, shutdown, data, credit update/request, op 0, unknown ops, wrong CID, unknown connection, non-empty control packets, truncated data) with the connection-table reference model compared after every operation for all 16 (peer, port) pairs; non-trivial as C17 history",
+            batches: vec![b("honest", scen::c17::honest, 6000, 150_000), b("garbage", scen::c17::garbage, 6000, 150_000), b("dishonest", scen::c17::dishonest, 2000, 50_000)],
+            extras: vec![],
+            assumptions: vec!["the model mirrors the statement: requests to non-listening ports are reset and not reported; packets for unknown connections change nothing"],
+            real: vec!["virtio_drivers::device::socket::{VsockConnectionManager, VirtIOSocket}", "OwningQueue, VirtQueue"],
+            stubbed: vec!["device + peers: reference vsock device and connection-table model", "platform: SimHal"],
+        },
         _ => return None,
     };
     Some(s)
 }
 
-pub const ALL: &[&str] = &["C01", "C02", "C03", "C04", "C05", "C06", "C10", "C14", "C15", "C16", "C19", "C20"];
+pub const ALL: &[&str] = &["C01", "C02", "C03", "C04", "C05", "C06", "C10", "C14", "C15", "C16", "C17", "C18", "C19", "C20"];
 
 pub fn find_batch(prop: &str, batch: &str) -> Option<fn()> {
     spec(prop)?.batches.iter().find(|b| b.name == batch).map(|b| b.f)
